@@ -113,3 +113,47 @@ Theorem C16_switching_protocols : forall cb g rq rsp cuts (qchunks spre : list b
   tn_tun (fst run).
 Proof. exact tu_switching_protocols. Qed.
 Print Assumptions C16_switching_protocols.
+
+(* (T3) REFUSED CONNECT RESUMES: a CONNECT request (any chunking, following bytes possibly glued and refused: DATA_OTHER, consumed 0), a non-2xx answer with a
+   Content-Length body (any chunking; 407 takes the same path), then n >= 1 pipelined requests of the grammar in any chunking, re-offered from their first byte:
+   transaction 0 is the CONNECT transaction, complete in both directions (its slot empty under tx_auto_destroy), transactions 1..n report requests 1..n -- no
+   request byte skipped or parsed twice --, the request side ends between two requests, no call ever returns TUNNEL, chk_C16 accepts the run.
+   (T4) the same when the CONNECT is ACCEPTED (2xx) but the payload starts with a known method: REQ_CONNECT_PROBE_DATA completes the CONNECT transaction and
+   normal parsing resumes, no tunnel. Both hold with and without tx_auto_destroy (since /repo 6d6bb7e). *)
+Require Import Htp.Proof.PTunSegLine Htp.Proof.PTunRefR Htp.Proof.PTunSegPipeRun Htp.Proof.PTunResume Htp.Proof.PTunThm3 Htp.Proof.PTunThm4.
+Theorem C16_refused_connect_resumes : forall cb g rq rsp cuts body rs h,
+  wr_all_ok cb -> g_allow_space_uri g = false ->
+  tn_connect_ok g rq = true -> tn_no_framing rq = true ->
+  tn_rsp_ok g rsp cuts = true -> tn_refused_ok rq rsp cuts body = true ->
+  rs <> [] -> Forall (fun r => sg_req_ok g r = true) rs -> (g_max_tx g = 0 \/ 1 + length rs < g_max_tx g)%nat ->
+  tn_h3_ok rq rsp cuts body rs h ->
+  let run := cp_run cb g connp_new (tn_h3_ops h) in
+  (* what the calls up to the end of the answer return and consume; how many calls follow *)
+  (exists rsH rsP, snd run = rsH ++ rsP /\ map tn_o rsH = tn_h3_expect h /\ length rsP = length (j_chunks h)) /\
+  (* transaction 0 is the CONNECT transaction, complete in both directions (its slot is empty when tx_auto_destroy is set);
+     transactions 1..n report requests 1..n *)
+  (exists t dn, c_txs (fst run) = tn_done_slot g t :: dn /\ tn_reported t rq /\ t_response_status_number t = wr_status_value (wp_status rsp) /\
+                t_response_progress t = c_HTP_RESPONSE_COMPLETE /\ sg_rep dn rs) /\
+  (* the request side is between two requests; no call has returned TUNNEL; the extracted tunnel oracle accepts *)
+  c_in_state (fst run) = REQ_IDLE /\ Forall tn_rquiet (snd run) /\
+  chk_C16 (obs_run cb g connp_new (tn_h3_ops h)) = true.
+Proof. exact tn_refused_connect_resumes. Qed.
+Print Assumptions C16_refused_connect_resumes.
+Theorem C16_accepted_connect_with_http_payload_resumes : forall cb g rq rsp cuts rs h,
+  wr_all_ok cb -> g_allow_space_uri g = false ->
+  tn_connect_ok g rq = true -> tn_no_framing rq = true ->
+  tn_rsp_ok g rsp cuts = true -> tn_2xx rsp = true ->
+  rs <> [] -> Forall (fun r => sg_req_ok g r = true) rs -> (g_max_tx g = 0 \/ 1 + length rs < g_max_tx g)%nat ->
+  tn_h4_ok rq rsp cuts rs h ->
+  let run := cp_run cb g connp_new (tn_h3_ops h) in
+  (* what the calls up to the end of the answer return and consume; how many calls follow *)
+  (exists rsH rsP, snd run = rsH ++ rsP /\ map tn_o rsH = tn_h3_expect h /\ length rsP = length (j_chunks h)) /\
+  (* transaction 0 is the CONNECT transaction, complete in both directions (its slot is empty when tx_auto_destroy is set);
+     transactions 1..n report requests 1..n *)
+  (exists t dn, c_txs (fst run) = tn_done_slot g t :: dn /\ tn_reported t rq /\ t_response_status_number t = wr_status_value (wp_status rsp) /\
+                t_response_progress t = c_HTP_RESPONSE_COMPLETE /\ sg_rep dn rs) /\
+  (* the request side is between two requests; no call has returned TUNNEL; the extracted tunnel oracle accepts *)
+  c_in_state (fst run) = REQ_IDLE /\ Forall tn_rquiet (snd run) /\
+  chk_C16 (obs_run cb g connp_new (tn_h3_ops h)) = true.
+Proof. exact tn_accepted_connect_http_resumes. Qed.
+Print Assumptions C16_accepted_connect_with_http_payload_resumes.
